@@ -2,7 +2,23 @@
 (b) a runnable program that calls accepted matrices on every value x guard valuation (run-time half)."""
 import json
 
-TY = {"bool": "Bool", "e3": "E3", "opt": "Option[Bool]", "pair": "(Bool, E3)", "p": "P", "int": "Int32"}
+TY = {"bool": "Bool", "e3": "E3", "opt": "Option[Bool]", "pair": "(Bool, E3)", "p": "P", "int": "Int32", "i64d": "Int64", "i32d": "Int32"}
+BASE = {"i64d": 0, "i32d": 0}      # dense integer matches: literal k is rendered as BASE + k
+
+
+def dense_val(tag, ty):
+    b = BASE[ty]
+    far = 4294967296 if ty == "i64d" else 1000000
+    if tag in ("0", "1", "2", "3", "4"): return b + int(tag)
+    if tag == "m1": return b - 1
+    if tag.startswith("lo"): return b + int(tag[2:]) - far
+    if tag.startswith("hi"): return b + int(tag[2:]) + far
+    return None
+
+
+def dense_lit(v, ty):
+    suf = "i64" if ty == "i64d" else "i32"
+    return f"{v}{suf}" if v >= 0 else f"(-{-v}{suf})"
 PRELUDE = ["enum E3 { A, B, C }", "enum P { X(Bool), Y, Z(Bool, Bool) }", "let mut GM: Int32 = 0i32;",
            "fn g(i: Int32): Bool { (GM >> i) & 1i32 == 1i32 }"]
 
@@ -18,6 +34,7 @@ def pat(p, ty, names):
     c = p["c"]; a = p["a"]
     if ty == "bool": return c
     if ty == "int": return c + "i32"
+    if ty in ("i64d", "i32d"): return dense_lit(BASE[ty] + int(c), ty)
     if ty == "e3": return f"E3::{c}"
     if ty == "opt": return "None" if c == "None" else f"Some({pat(a[0], 'bool', names)})"
     if ty == "pair": return f"({pat(a[0], 'bool', names)}, {pat(a[1], 'e3', names)})"
@@ -31,6 +48,10 @@ def val(v, ty):
     c = v["c"]; a = v["a"]
     if ty == "bool": return c
     if ty == "int": return {"0": "0i32", "1": "1i32", "other": "77i32"}[c]
+    if ty in ("i64d", "i32d"):
+        if c == "min": return "Int64::min_value()" if ty == "i64d" else "Int32::min_value()"
+        if c == "max": return "Int64::max_value()" if ty == "i64d" else "Int32::max_value()"
+        return dense_lit(dense_val(c, ty), ty)
     if ty == "e3": return f"E3::{c}"
     if ty == "opt": return "None[Bool]" if c == "None" else f"Some[Bool]({val(a[0], 'bool')})"
     if ty == "pair": return f"({val(a[0], 'bool')}, {val(a[1], 'e3')})"
@@ -109,7 +130,7 @@ def row_first_value(row):
     ty = row["ty"]
     return {"bool": {"c": "true", "a": []}, "int": {"c": "0", "a": []}, "e3": {"c": "A", "a": []},
             "opt": {"c": "None", "a": []}, "pair": {"c": "tuple", "a": [{"c": "true", "a": []}, {"c": "A", "a": []}]},
-            "p": {"c": "Y", "a": []}}[ty]
+            "p": {"c": "Y", "a": []}, "i64d": {"c": "0", "a": []}, "i32d": {"c": "0", "a": []}}[ty]
 
 
 def render_run(rows):
